@@ -5,7 +5,8 @@ model; these are the property's own sentences ("destructive queries change the s
 corrupt) and reads of compromised data fail"), so that a change of ONE branch is refuted by the theorem that names it, and
 `Props/C17SqlCm.lean` prints the server on which it fails (the counter-model search, 120 cells = the whole domain of the method).
 -/
-import PrimaiteModel.Props.C17Recv
+import PrimaiteModel.Model.Database
+import PrimaiteModel.Gen.DatabaseTr
 namespace Primaite.Database
 open Primaite.Gen
 
